@@ -62,7 +62,7 @@ class IOWorld(Machine):
     RULE = ("seeded histories (<= 12 operations) of export_landmark_file (.ljson/.pts), export_pickle (.pkl/.pkl.gz, "
             "protocols 2-5), export_image (png/bmp/tif/tiff/ppm/pgm), export_video (fake ffmpeg) with overwrite "
             "on/off, imports, import->export->re-import of images, foreign files appearing and files being removed, "
-            "over few colliding names incl. multi-dot names and six spellings of each path; fault-free and "
+            "over few colliding names incl. multi-dot names and eight spellings of each path (str/Path, relative/absolute, ./ and sub/../ forms, ~ and $VAR forms); fault-free and "
             "fault-injecting configurations (open/write/torn write/flush/close/read faults with ENOSPC, EIO, EACCES, "
             "EMFILE) are separate runs; thorough additionally enumerates every fault position of short histories; "
             "non-trivial = at least one clause evaluated; distinct = distinct (configuration kind, op-kind sequence)")
@@ -79,7 +79,7 @@ class IOWorld(Machine):
     REQUIRED_PROBES = ("refused_ljson", "refused_pts", "refused_pickle", "refused_pickle_gz", "refused_image", "refused_video",
                        "refused_foreign", "refused_dirty", "overwrite_longer_by_shorter", "multi_dot_name", "pkl_gz_roundtrip",
                        "float_image", "uint8_image_roundtrip", "import_export_reimport", "nan_landmark", "manager_ge2_groups",
-                       "unicode_label", "spelling_0", "spelling_1", "spelling_2", "spelling_3", "spelling_4", "spelling_5",
+                       "unicode_label", "spelling_0", "spelling_1", "spelling_2", "spelling_3", "spelling_4", "spelling_5", "spelling_6", "spelling_7",
                        "clean_path_read_back_later", "path_reduce_restored", "pts_roundtrip", "empty_edge_set",
                        "pts_large_coordinates", "masked_image_export", "explicit_extension_kwarg", "empty_preexisting_file", "exact_zero_coordinates",
                        "upper_case_extension")
@@ -99,7 +99,7 @@ class IOWorld(Machine):
         if not any(w[:3]):
             w[0] = 1
         k = rng.choices(cls.OPS, weights=w)[0]
-        op = {"op": k, "stem": rng.randrange(4), "dir": rng.choice([0, 0, 1]), "spell": rng.randrange(6),
+        op = {"op": k, "stem": rng.randrange(4), "dir": rng.choice([0, 0, 1]), "spell": rng.randrange(8),
               "ow": rng.choice([0, 0, 1]), "seed": rng.getrandbits(32), "kind": rng.randrange(16),
               "ext": rng.randrange(7), "proto": rng.choice([2, 2, 3, 4, 5])}
         op["again"] = int(cfg["kind"] == "faulty" and rng.random() < 0.3)   # retry the previous export's target
@@ -146,6 +146,8 @@ class IOWorld(Machine):
         os.makedirs(os.path.join(self.root, "sub"))
         self.cwd = os.getcwd()
         os.chdir(self.root)
+        self.env0 = {k: os.environ.get(k) for k in ("HOME", "VSIM_SANDBOX")}
+        os.environ["HOME"] = os.environ["VSIM_SANDBOX"] = self.root
         self.fs = FsSeam(self.root)
         self.ff = FakeFFmpeg(self.cfg["seed"])
         self.fs.install()
@@ -171,6 +173,11 @@ class IOWorld(Machine):
             pass
         self.ff.uninstall()
         self.fs.uninstall()
+        for k, v in self.env0.items():
+            if v is None:
+                os.environ.pop(k, None)
+            else:
+                os.environ[k] = v
         try:
             os.chdir(self.cwd)
         except Exception:
@@ -192,6 +199,7 @@ class IOWorld(Machine):
         return out
 
     def spelled(self, rel, spell):
+        spell = spell % 8
         ab = os.path.join(self.root, rel)
         self.ctx.probe("spelling_%d" % spell)
         if spell == 0:
@@ -204,6 +212,10 @@ class IOWorld(Machine):
             return Path(rel)
         if spell == 4:
             return Path(ab)
+        if spell == 6:
+            return "~/" + rel                       # HOME is the sandbox (menpo documents the expansion)
+        if spell == 7:
+            return Path("$VSIM_SANDBOX") / rel      # so is this variable
         return "sub/../" + rel
 
     def relname(self, op, ext):
